@@ -459,6 +459,27 @@ def check(run):
     # ---- known findings -------------------------------------------------------
     known_inputs = {}
     for k in run.known:
+        if k["replay"].get("kind") == "namegen-cases":
+            import namegen as _ng
+
+            still = []
+            for tpl, role, nm in k["replay"]["cases"]:
+                names = dict(_ng.PLAIN)
+                names[role] = nm
+                src_ = _ng.render(names, tpl)
+                dk = os.path.join(vlib.BUILD, "tmp", "c04kn")
+                shutil.rmtree(dk, ignore_errors=True)
+                os.makedirs(dk)
+                with open(os.path.join(dk, "main.gom"), "w") as f_:
+                    f_.write(src_)
+                (r,) = vlib.run_harness("compile", [{"path": os.path.join(dk, "main.gom"), "timeout_ms": 8000}])
+                if acceptable(r):
+                    still.append("%s:%s=%s" % (tpl, role, nm))
+                    known_inputs["%s/%s/%s/%s" % (k["id"], tpl, role, nm)] = src_
+                shutil.rmtree(dk, ignore_errors=True)
+            if still:
+                run.known_finding(k["id"], "%s: %s — still failing for %d listed choices: %s" % (k["id"], k["what"], len(still), ", ".join(still)))
+            continue
         p = os.path.join(vlib.VERIF, k["replay"]["program"])
         (r,) = vlib.run_harness("compile", [{"path": p, "timeout_ms": 4000}])
         msg = acceptable(r)
